@@ -290,7 +290,19 @@ func ResultOf(idx int, fns ...*types.Func) VM {
 }
 
 func asResultOf(v ssa.Value, idx int, fns ...*types.Func) (*ssa.Call, bool) {
+	return asResultOfRec(v, idx, map[ssa.Value]bool{}, fns...)
+}
+
+// asResultOfRec carries the set of values being resolved: a local whose
+// stores include a load of itself (`err = err` on a named result) or a phi
+// cycle would otherwise recurse forever; a value met again contributes nothing.
+func asResultOfRec(v ssa.Value, idx int, busy map[ssa.Value]bool, fns ...*types.Func) (*ssa.Call, bool) {
 	v = strip(v)
+	if busy[v] {
+		return nil, false
+	}
+	busy[v] = true
+	defer delete(busy, v)
 	if e, ok := v.(*ssa.Extract); ok {
 		if call, ok := e.Tuple.(*ssa.Call); ok && inFuncs(calleeOf(call.Common()), fns) && (idx < 0 || e.Index == idx) {
 			return call, true
@@ -309,7 +321,7 @@ func asResultOf(v ssa.Value, idx int, fns ...*types.Func) (*ssa.Call, bool) {
 			}
 			var first *ssa.Call
 			for _, s := range st {
-				c, ok := asResultOf(s, idx, fns...)
+				c, ok := asResultOfRec(s, idx, busy, fns...)
 				if !ok {
 					return nil, false
 				}
@@ -323,7 +335,7 @@ func asResultOf(v ssa.Value, idx int, fns ...*types.Func) (*ssa.Call, bool) {
 	if p, ok := v.(*ssa.Phi); ok {
 		var first *ssa.Call
 		for _, e := range p.Edges {
-			c, ok := asResultOf(e, idx, fns...)
+			c, ok := asResultOfRec(e, idx, busy, fns...)
 			if !ok {
 				return nil, false
 			}
